@@ -38,7 +38,25 @@ func ratI(i int64) *big.Rat  { return new(big.Rat).SetInt64(i) }
 
 // caseBase: every case owns a span of virtual time determined by its id, so that the clock
 // never moves backwards between cases and a replayed case sees the same times
-func caseBase(id int) uint64 { return t0ms + uint64(id)*100000000 }
+// The virtual clock counts nanoseconds in a uint64, so times stay below 1.84e13 ms.  Ordinary warm-up
+// cases own 3e7 ms each; every fourth pair of ids (j mod 8 in {2,3}, the first 300 of them) is a
+// "big" case that may contain one idle gap of k*2^31 / k*2^32 ms and owns 1.5e10 ms in a region above
+// all ordinary cases (main runs the big cases last, so the clock never moves backwards).
+func isBigWu(id int) bool {
+	j := id - wuBase
+	return j >= 0 && (j%8 == 2 || j%8 == 3) && (j/8)*2+(j%8-2) < 300
+}
+
+func caseBase(id int) uint64 {
+	if id >= wuBase {
+		j := uint64(id - wuBase)
+		if isBigWu(id) {
+			return t0ms + 11900000000000 + ((j/8)*2+(j%8-2))*15000000000
+		}
+		return t0ms + 10000000000000 + j*30000000
+	}
+	return t0ms + uint64(id%100000)*100000000 // (memory-adaptive ids above 100000 exist only in the widened search)
+}
 
 // closeTo: |f - x| <= scale * 2^-k for exact rationals x, scale
 func closeTo(f float64, x, scale *big.Rat, k uint) bool {
@@ -137,6 +155,36 @@ func runMem(c memCase, clk *vclock.Clock) memObs {
 	res := "c11m-" + strconv.Itoa(c.ID)
 	rule := &flow.Rule{Resource: res, TokenCalculateStrategy: flow.MemoryAdaptive, ControlBehavior: flow.Reject,
 		LowMemUsageThreshold: c.LowT, HighMemUsageThreshold: c.HighT, MemLowWaterMarkBytes: c.LowW, MemHighWaterMarkBytes: c.HighW}
+	// reload prologue: a rule that differs from the case's rule in exactly one adaptive field is
+	// loaded first; the calculator in force afterwards must be the one of the case's rule
+	pre := *rule
+	switch c.ID % 4 {
+	case 0:
+		if c.HighW-1 > c.LowW {
+			pre.MemHighWaterMarkBytes = c.HighW - 1
+		} else {
+			pre.MemHighWaterMarkBytes = c.HighW + 1 // may exceed the machine's memory: then the prologue rule is simply invalid
+		}
+	case 1:
+		if c.LowW > 1 {
+			pre.MemLowWaterMarkBytes = c.LowW - 1
+		} else if c.LowW+1 < c.HighW {
+			pre.MemLowWaterMarkBytes = c.LowW + 1
+		}
+	case 2:
+		pre.LowMemUsageThreshold = c.LowT + 1
+	default:
+		if c.HighT > 1 {
+			pre.HighMemUsageThreshold = c.HighT - 1
+		} else if c.HighT+1 < c.LowT {
+			pre.HighMemUsageThreshold = c.HighT + 1
+		}
+	}
+	if pre != *rule {
+		if _, err := flow.LoadRules([]*flow.Rule{&pre}); err != nil {
+			panic(err)
+		}
+	}
 	if _, err := flow.LoadRules([]*flow.Rule{rule}); err != nil {
 		panic(err)
 	}
@@ -254,7 +302,7 @@ func coqMem(c memCase, o memObs) string {
 
 const (
 	wuBase   = 100000
-	wuWitN   = 9
+	wuWitN   = 12
 	constsID = 999999
 )
 
@@ -338,8 +386,12 @@ func main() {
 	for id := 0; id < nMemMon; id++ {
 		runOneMem(id, id < nMemCorr)
 	}
-	for j := 0; j < nWuMon; j++ {
-		runOneWu(wuBase+j, j < nWuCorr)
+	for pass := 0; pass < 2; pass++ { // ordinary cases first, big-gap cases last (monotone clock)
+		for j := 0; j < nWuMon; j++ {
+			if isBigWu(wuBase+j) == (pass == 1) {
+				runOneWu(wuBase+j, j < nWuCorr)
+			}
+		}
 	}
 	rep.DistinctNontrivial = dist.N()
 	rep.Consts["config.MetricStatisticIntervalMs"] = config.MetricStatisticIntervalMs()
